@@ -39,3 +39,16 @@ Proof.
   split; [vm_compute; reflexivity|]. split; [vm_compute; reflexivity|].
   intros fx p e s x s' evs H1 H2. exact (proj1 (period_end_clears_votes fx p e s x s' evs H1 H2)).
 Qed.
+
+(** every vote / prevote value built in x/oracle carries the canonical spelling of a decoded address as its Voter
+    string ([cc_voter_strings]); hence C10_msg_history_holds applies to the message server as it is in the tree now:
+    whatever the spelling of the validator / feeder fields, the published rates are those of the votes cast by identity *)
+Theorem C10_voter_string_canonical_in_current_tree : voter_canonical current_cfg = true.
+Proof. vm_compute. reflexivity. Qed.
+
+Theorem C10_msg_history_holds_for_current_tree :
+  forall p xs, Forall (fun ex => wf_env (fst ex)) xs -> forall s, canonical_store s ->
+  exists o, mhist_obs_cfg current_cfg p s xs = Some o /\
+            P_mhist p (ms_rates s) (map to_avote (ms_votes s)) (map to_prevote (ms_prevotes s)) o.
+Proof. exact (msg_holds_for_cfg current_cfg C10_current_cfg_ok). Qed.
+Print Assumptions C10_msg_history_holds_for_current_tree.
